@@ -233,7 +233,14 @@ theorem seqStep_kids (n : Node) (hn : dps n = true) (op : SeqOp) (hop : SeqArgsD
     | count a => dsimp only; split <;> exact hK
 
 /-- **node-level preservation, sequences, every call.**  A deep-positional List / Array /
-    MultiValue stays deep positional under every list-protocol call, successful or raising. -/
+    MultiValue stays deep positional under every list-protocol call OF THE MODEL, whether the model's call
+    returns or raises.  "Raising" is true of the model: its raising paths are the rejections (bad index, rejected
+    item, missing value …) and the prefix-keeping failures of extend / `+=` / `*=` / set that `seqStep` implements.
+    It is NOT a statement about every raising path of the code: the model's keyed sort never raises (it sorts or
+    answers `.unsupported`, `C08.Proofs.keyed_sort_only_refuses`), whereas `list.sort` may fail inside a COMPARISON
+    and leave the slots rearranged; on that path `dps` is re-established by the `finally: self._renumber()` of
+    List.sort (9873cdc) — proved for every rearrangement in `Proofs/C09SortFailure.lean`
+    (`sort_failure_any_permutation_dps`), checked on the code by `g1common.check_sort_failure`. -/
 theorem seqStep_dps (n : Node) (h : dps n = true) (op : SeqOp) (hop : SeqArgsDP op) (next : Nat) :
     dps (seqStep n op next).node = true :=
   dps_of_hdr (seqStep_hdr n op next)
